@@ -2,6 +2,7 @@ import LitexModel.DriverLib
 import LitexModel.Export.Addr
 import LitexModel.Export.Accessor
 import LitexModel.Export.MemImage
+import LitexModel.Export.Soc
 /-
   Driver of C14 (pure `call`s).  Banks are written `<page> <size> <size> ...` and separated by `;`
   (a CSR memory window is a bank without registers); they are given in the exporter's order (sorted by origin).
@@ -12,6 +13,12 @@ import LitexModel.Export.MemImage
           S: get_csr_svd absolute address per simple CSR
   call decode <busword> <aw> <paging> <ratio> <off> ; <bank> ; ...   -> `b:i b:i ...` (or `-`) strobed by a 32-bit
        access (ratio > 1: load through the AXI-Lite wide->32 down-converter, which reads every part of the bus word)
+  call irq <n_irqs> ; O <cpu-owned names> ; M <module names> ; E | A <name> <n|N> <use> ; ... ; F <names> ; ...
+       -> locs # <NAME>_INTERRUPT constants # wiring line:name # CONFIG_CPU_INTERRUPTS # lines raised per F
+  call slaves <aw> <dw> <word address> ; <name> <origin> <size> <decode> ; ...
+       -> published name:base:size ... # names of the slaves whose decoder accepts the address
+  call constants <name>:<value> ...                          -> ok <name>:<value> ... | rejected (duplicate)
+  (register tokens of a bank: `<size>` compound, `<size>p` plain CSR — only the SVD list distinguishes them)
   call sweep <busword> <aw> <paging> ; <bank> ; ... ; M <page> <depth> <pv> ; ...
        -> `adr:b:i ...` and `adr:Mk:word` (memory k's write port) for every CSR-bus address 0 .. 2^aw-1
   call accread <busword> <nw> <w0> <w1> ...                  -> value | none      (generated reader on load results)
@@ -28,14 +35,38 @@ import LitexModel.Export.MemImage
   call accepts <alignment> <aw> <paging> <busword> ; <bank> ; ...   -> ok | rejected   (SoCError at build time)
   call nlocs <alignment> <aw> <paging>
 -/
-open Litex Litex.Driver Litex.Export
+open Litex Litex.Driver Litex.Export Litex.Soc
 
 def pBool (w : String) : Option Bool := if w == "1" then some true else if w == "0" then some false else none
 def unwords (l : List String) : String := " ".intercalate l
 
-def pBank : List String → Option Bank
+/-- A register token: `<size>` (compound CSRStorage/CSRStatus) or `<size>p` (plain CSR). -/
+def pReg (w : String) : Option (Nat × Bool) :=
+  if w.endsWith "p" then (w.dropRight 1).toNat?.map (·, false) else w.toNat?.map (·, true)
+
+def pBankK : List String → Option (Bank × List (Nat × Bool))
   | [] => none
-  | p :: rs => do some { page := ← p.toNat?, regs := ← parseNats rs }
+  | p :: rs => do
+    let regs ← rs.mapM pReg
+    some ({ page := ← p.toNat?, regs := regs.map (·.1) }, regs)
+
+def pBank (ws : List String) : Option Bank := (pBankK ws).map (·.1)
+
+def pOptInt (w : String) : Option (Option Int) := if w == "N" then some none else w.toInt?.map some
+
+def pLocOp : List String → Option (LocOp Nat)
+  | ["A", n, k, u] => do some (.add (← n.toNat?) (← pOptInt k) (← pBool u))
+  | ["E"] => some .enable
+  | _ => none
+
+def pRegion : List String → Option (Nat × Region)
+  | [n, o, sz, d] => do some (← n.toNat?, { origin := ← o.toNat?, size := ← sz.toNat?, decode := ← pBool d })
+  | _ => none
+
+def pPair (w : String) : Option (Nat × Int) :=
+  match w.splitOn ":" with
+  | [n, v] => do some (← n.toNat?, ← v.toInt?)
+  | _ => none
 
 def pBanks (rest : List String) : Option (List Bank) := ((splitSemi rest).filter (· ≠ [])).mapM pBank
 
@@ -49,13 +80,39 @@ def call (args : List String) : Option String :=
   match args with
   | "export" :: cb :: pg :: al :: bw :: cba :: rest => do
     let cb ← cb.toNat?; let pg ← pg.toNat?; let al ← al.toNat?; let bw ← bw.toNat?; let cba ← cba.toNat?
-    let banks ← pBanks rest
+    let bks ← ((splitSemi rest).filter (· ≠ [])).mapM pBankK
+    let banks := bks.map (·.1)
     let j := (exportAddrs cb pg al bw banks).map showEntries
     let h := (headerAddrs cba cb pg al bw banks).map showEntries
-    let s := banks.map fun b => showNats (svdAddrs cb pg bw b)
+    let s := bks.map fun b => showNats (svdAddrsK cb pg bw b.1.page b.2)
     some s!"J {showBanks j} # H {showBanks h} # S {showBanks s}"
   | "decode" :: bw :: aw :: pg :: ratio :: off :: rest => do
     some (showHits (hwDecodeWide (← ratio.toNat?) (← bw.toNat?) (← aw.toNat?) (← pg.toNat?) (← pBanks rest) (← off.toNat?)))
+  | "irq" :: n :: rest => do
+    -- irq <n_irqs> ; O <cpu-owned names> ; M <module names> ; <op> ; ... ; F <firing names> ; F ...
+    let parts := (splitSemi rest).filter (· ≠ [])
+    let own ← (parts.filter (·.head? = some "O")).flatten.drop 1 |> parseNats
+    let mods ← (parts.filter (·.head? = some "M")).flatten.drop 1 |> parseNats
+    let ops ← (parts.filter fun p => p.head? = some "A" || p.head? = some "E").mapM pLocOp
+    let fires ← (parts.filter (·.head? = some "F")).mapM fun p => parseNats (p.drop 1)
+    let s := ({ nLocs := ← n.toNat?, enabled := false } : LocH Nat).run ops
+    let wiring := irqWiring s.locs own (fun m => mods.contains m)
+    let sp := fun (l : List String) => if l.isEmpty then "-" else unwords l
+    some (" # ".intercalate [
+      sp (s.locs.map fun p => s!"{p.1}:{p.2}"),
+      sp ((irqConstants s.locs own).map fun p => s!"{p.1}:{p.2}"),
+      sp (wiring.map fun w => s!"{w.1}:{w.2}"),
+      toString (cpuInterrupts s.locs),
+      " | ".intercalate (fires.map fun f => sp ((irqLines wiring f).map toString))])
+  | "slaves" :: aw :: dw :: a :: rest => do
+    let regions ← ((splitSemi rest).filter (· ≠ [])).mapM pRegion
+    let e := (memExport regions).map fun p => s!"{p.1}:{p.2.1}:{p.2.2}"
+    let sel := (selectedSlaves (← aw.toNat?) (← dw.toNat?) regions (← a.toNat?)).map toString
+    some s!"{unwords e} # {if sel.isEmpty then "-" else unwords sel}"
+  | "constants" :: rest => do
+    match addConstants [] (← rest.mapM pPair) with
+    | some cs => some ("ok " ++ unwords (cs.map fun p => s!"{p.1}:{p.2}"))
+    | none => some "rejected"
   | "sweep" :: bw :: aw :: pg :: rest => do
     let bw ← bw.toNat?; let aw ← aw.toNat?; let pg ← pg.toNat?
     let parts := (splitSemi rest).filter (· ≠ [])
